@@ -70,7 +70,7 @@ from migen.genlib.cdc import MultiReg, PulseSynchronizer
 from migen.genlib.resetsync import AsyncResetSynchronizer
 from litex.gen import LiteXModule
 from litex.soc.interconnect import stream
-from vf.core import Case as VCase, PROVED, VIOLATED, OK, VACUOUS, FAULT, UNKNOWN
+from vf.core import Case as VCase, PROVED, VIOLATED, OK, VACUOUS, FAULT, UNKNOWN, NOINPUT
 
 import os
 _TOOLS = os.path.join(os.path.dirname(os.path.dirname(os.path.abspath(__file__))), "tools")
@@ -726,6 +726,20 @@ def c_uartbone(cd="uart", dynamic=False):
     out.append(res("ens.renaming.PHY-registers-in-cd,wishbone-side-registers-in-sys", "ensures", PROVED if phy_regs == {cd} and wb_regs == {"sys"} else VIOLATED, 0, "static analysis", info=f"phy {phy_regs} wishbone {wb_regs}"))
     out.append(res("ens.tx_cdc-crosses-sys->cd,rx_cdc-crosses-cd->sys", "ensures", PROVED if _mem_dirs(g) == {("sys", cd): 1, (cd, "sys"): 1} else VIOLATED, 0, "static analysis", info=str(dict(_mem_dirs(g)))))
     out.append(summary(g, xs, t0, 7))
+    # the two crossings are connected to the bridge by complete stream handshakes: a word is popped from rx_cdc exactly when the bridge accepts it, a word
+    # enters tx_cdc exactly when it is accepted there (a read side popped unconditionally loses the words offered while the bridge is busy)
+    try:
+        from vf.hw import HwCheck
+        top2 = mk(Top); d2 = top2.bone
+        h = HwCheck("UARTBone.handshakes", top2, [top2.pads.rx, d2.wishbone.ack, d2.wishbone.dat_r, d2.wishbone.err] + list(top2.ins), clock="sys")
+        cc = h.ts.comb_constraints(); V = h.v
+        bad = z3.Or(V(d2.rx_cdc.source.ready) != V(d2.sink.ready), V(d2.sink.valid) != V(d2.rx_cdc.source.valid), V(d2.tx_cdc.sink.valid) != V(d2.source.valid), V(d2.source.ready) != V(d2.tx_cdc.sink.ready))
+        st, _, be, t = h._solve(cc + [bad])
+        out.append(res("ens.crossings-connected-by-complete-handshakes", "ensures", PROVED if st == "unsat" else (UNKNOWN if st == "unknown" else NOINPUT), t, be))
+        st2, _, be2, t2 = h._solve(cc + [V(d2.rx_cdc.source.valid) == 1, V(d2.rx_cdc.source.ready) == 0])
+        out.append(res("cover.bridge-can-stall-the-rx-crossing", "cover", OK if st2 == "sat" else (UNKNOWN if st2 == "unknown" else VACUOUS), t2, be2))
+    except (AttributeError, KeyError) as e:
+        out.append(res("ens.crossings-connected-by-complete-handshakes", "ensures", UNKNOWN, 0, "", info=f"endpoints not found: {type(e).__name__}: {e}"))
     return dict(results=out, functions=["litex.soc.cores.uart.UARTBone.__init__", "litex.soc.cores.uart.Stream2Wishbone.__init__"] + FN_STREAM)
 
 def c_elastic(width=8, depth=8):
